@@ -25,6 +25,12 @@ CLAIMED = {
              design="DESIGN.md 3/U1 U2 U3, 4/C18", technique="Verus auto-obligations (overflow, bounds, unwrap, assert!) + std safety contracts as call-site preconditions"),
  "C10": dict(text="Part of the property, proved on the real unix::recv (Verus): follow-up fragments are always read with flags == 0 (blocking) whatever the mode, so a started message is finished; with nothing queued recv returns Err and consumes nothing. The O_NONBLOCK set/clear discipline and poll timeout of UnixCmsg::recv are the Kani harnesses (K4) when present in the evidence.",
              design="DESIGN.md 3/U3 U4, 4/C10", technique="Verus call-site precondition on the recv stub (flags) + postcondition"),
+ "C14": dict(text="Verus on the real IpcSender::send and OpaqueIpcMessage::to after thread-local elimination (the four RefCell lists become fields of an explicit &mut Tls): on EVERY exit path the four lists equal their entry values, and messages already handed to the OS layer are never retracted; the serialiser stub's contract (lists only grow; complete nested sends allowed) is exactly what send's own postcondition re-establishes, so nesting is covered inductively; serialize_os_ipc_sender/receiver and IpcSharedMemory::serialize push exactly one entry and leave the rest alone.",
+             design="DESIGN.md 3/U7, 4/C14", technique="Verus frame postconditions on every exit of extracted real code (thread-locals made explicit)",
+             note="Trusted: serde/bincode and user Serialize/Deserialize impls obey ser_step/de_step; RefCell's dynamic double-borrow panic and thread identity are not modelled; the platform send is a stub that logs what it is handed."),
+ "C16": dict(text="Part of the property, Verus on the real deserialize_os_ipc_sender/receiver, IpcSharedMemory::deserialize and OpaqueIpcMessage::to with an ARBITRARY decoded index: no index/unwrap panic (auto-obligations), the endpoint returned is an attachment of this very message, the side tables are restored before the result is looked at. Open known finding: a channel index used twice. bincode's own behaviour on corrupt bytes is outside; release of unclaimed descriptors is OsOpaqueIpcChannel::drop (Kani ledger when present).",
+             design="DESIGN.md 3/U7, 4/C16, 5", technique="Verus auto-obligations (bounds, unwrap) + postconditions on extracted real code, arbitrary index",
+             note="Trusted: serde/bincode stubs; thread-locals modelled as explicit &mut Tls."),
  "C09": dict(text="Verus, part of the property: on the real OsIpcSender::send every transmission failure that is not a recoverable ENOBUFS is returned as Err (ghost attempt log), a failed send leaves at most one packet on the shared socket, and the retry loop terminates for every error pattern. That the kernel reports EPIPE/ECONNRESET and raises no SIGPIPE is assumed.",
              design="DESIGN.md 3/U2, 4/C09", technique="Verus postconditions over a ghost transmission log"),
 }
